@@ -171,6 +171,7 @@ def run_case(case):
 
     k, pid, exp, io_vals = build(case)
     labels = set()
+    got_again = None
     import contextlib
     with simk.installed(k), contextlib.ExitStack() as stack:
         p = psutil.Process(pid)
@@ -245,8 +246,21 @@ def run_case(case):
                 proc.fds = saved
             check_files(files2, set(exp) - closed, set(exp), "closing")
             labels.add("fd-closing-mid-scan")
+        # one more descriptor is opened; the same object is asked again
+        k.set_file(f"{ROOT}/data/late", b"x")
+        k.procs[pid].fds[4000] = simk.FD(f"{ROOT}/data/late", 0, 0o100000, "reg")
+        got_again = (safe("num_fds", p.num_fds), safe("open_files", p.open_files))
+        del k.procs[pid].fds[4000]
 
     kinds = {d["kind"] for d in case["fds"].values()}
+    if got_again is not None:
+        n2, files2b = got_again
+        if n2 != len(case["fds"]) + 1:
+            raise Violation("num_fds", f"after one more descriptor was opened: {n2} expected {len(case['fds']) + 1}"
+                                       f" (inside one oneshot block: {bool(case.get('oneshot'))})")
+        if not any(f.fd == 4000 and f.path == f"{ROOT}/data/late" for f in files2b):
+            raise Violation("open_files-missing", f"descriptor 4000 opened after the first call is not listed: {files2b!r}")
+        labels.add("descriptor-opened-between-two-calls")
     if len(kinds) >= 3:
         labels.add("kinds>=3")
     if any("O_APPEND" in d["flags"] for d in case["fds"].values()):
